@@ -5,5 +5,5 @@ export CARGO_NET_OFFLINE=true
 python3 tools/mkvendor.py /verif/.cache/vendor || exit 1
 tools/mirdump.sh || exit 1
 [ -x tools/build_replay.sh ] && { tools/build_replay.sh || exit 1; }
-[ -x tools/build_kani.sh ] && { tools/build_kani.sh || exit 1; }
+[ -x tools/build_kani.sh ] && { tools/build_kani.sh || echo "setup: Kani pre-build failed - the thorough tier runs without its second engine (never affects a verdict)"; }
 echo "setup: ok"
